@@ -60,6 +60,20 @@ enum PendingBlock {
     ScBool {
         jump_instrs: Vec<u32>,
     },
+    Scope(#[cfg_attr(not(feature = "loop_controls"), allow(dead_code))] PendingScope),
+}
+
+/// A scope that is open at the current position and that has to be closed
+/// again on every way out of it (also if a loop is left with `break` or
+/// `continue` from within the scope).
+#[derive(Copy, Clone)]
+enum PendingScope {
+    /// `PushWith` that needs a `PopFrame`
+    With,
+    /// `BeginCapture` that needs an `EndCapture`
+    Capture,
+    /// `PushAutoEscape` that needs a `PopAutoEscape`
+    AutoEscape,
 }
 
 const CODEGEN_POOL_MAX_ITEMS: usize = 64;
@@ -244,6 +258,52 @@ impl<'source> CodeGenerator<'source> {
         }
     }
 
+    /// Remembers that a scope was opened.
+    fn start_scope(&mut self, scope: PendingScope) {
+        self.pending_block.push(PendingBlock::Scope(scope));
+    }
+
+    /// Forgets the innermost open scope.
+    fn end_scope(&mut self) {
+        match self.pending_block.pop() {
+            Some(PendingBlock::Scope(_)) => {}
+            _ => unreachable!(),
+        }
+    }
+
+    /// Closes all scopes that were opened within the innermost loop.
+    ///
+    /// This is emitted in front of the jump of a `break` or `continue` so that
+    /// frames, captures and auto escape flags of the scopes that are left by
+    /// the jump are not kept alive.
+    #[cfg(feature = "loop_controls")]
+    fn leave_scopes_of_innermost_loop(&mut self) {
+        let scopes = self
+            .pending_block
+            .iter()
+            .rev()
+            .take_while(|x| !matches!(x, PendingBlock::Loop { .. }))
+            .filter_map(|x| match x {
+                PendingBlock::Scope(scope) => Some(*scope),
+                _ => None,
+            })
+            .collect::<Vec<_>>();
+        for scope in scopes {
+            match scope {
+                PendingScope::With => {
+                    self.add(Instruction::PopFrame);
+                }
+                PendingScope::Capture => {
+                    self.add(Instruction::EndCapture);
+                    self.add(Instruction::DiscardTop);
+                }
+                PendingScope::AutoEscape => {
+                    self.add(Instruction::PopAutoEscape);
+                }
+            }
+        }
+    }
+
     /// Begins an if conditional
     pub fn start_if(&mut self) {
         let jump_instr = self.add(Instruction::JumpIfFalse(!0));
@@ -342,6 +402,7 @@ impl<'source> CodeGenerator<'source> {
             ast::Stmt::WithBlock(with_block) => {
                 self.set_line_from_span(with_block.span());
                 self.add(Instruction::PushWith);
+                self.start_scope(PendingScope::With);
                 for (target, expr) in &with_block.assignments {
                     self.compile_expr(expr);
                     self.compile_assignment(target);
@@ -349,6 +410,7 @@ impl<'source> CodeGenerator<'source> {
                 for node in &with_block.body {
                     self.compile_stmt(node);
                 }
+                self.end_scope();
                 self.add(Instruction::PopFrame);
             }
             ast::Stmt::Set(set) => {
@@ -359,9 +421,11 @@ impl<'source> CodeGenerator<'source> {
             ast::Stmt::SetBlock(set_block) => {
                 self.set_line_from_span(set_block.span());
                 self.add(Instruction::BeginCapture(CaptureMode::Capture));
+                self.start_scope(PendingScope::Capture);
                 for node in &set_block.body {
                     self.compile_stmt(node);
                 }
+                self.end_scope();
                 self.add(Instruction::EndCapture);
                 if let Some(ref filter) = set_block.filter {
                     self.compile_expr(filter);
@@ -372,17 +436,21 @@ impl<'source> CodeGenerator<'source> {
                 self.set_line_from_span(auto_escape.span());
                 self.compile_expr(&auto_escape.enabled);
                 self.add(Instruction::PushAutoEscape);
+                self.start_scope(PendingScope::AutoEscape);
                 for node in &auto_escape.body {
                     self.compile_stmt(node);
                 }
+                self.end_scope();
                 self.add(Instruction::PopAutoEscape);
             }
             ast::Stmt::FilterBlock(filter_block) => {
                 self.set_line_from_span(filter_block.span());
                 self.add(Instruction::BeginCapture(CaptureMode::Capture));
+                self.start_scope(PendingScope::Capture);
                 for node in &filter_block.body {
                     self.compile_stmt(node);
                 }
+                self.end_scope();
                 self.add(Instruction::EndCapture);
                 self.compile_expr(&filter_block.filter);
                 self.add(Instruction::Emit);
@@ -449,6 +517,7 @@ impl<'source> CodeGenerator<'source> {
             #[cfg(feature = "loop_controls")]
             ast::Stmt::Continue(cont) => {
                 self.set_line_from_span(cont.span());
+                self.leave_scopes_of_innermost_loop();
                 for pending_block in self.pending_block.iter().rev() {
                     if let PendingBlock::Loop { iter_instr, .. } = pending_block {
                         self.add(Instruction::Jump(*iter_instr));
@@ -459,6 +528,7 @@ impl<'source> CodeGenerator<'source> {
             #[cfg(feature = "loop_controls")]
             ast::Stmt::Break(brk) => {
                 self.set_line_from_span(brk.span());
+                self.leave_scopes_of_innermost_loop();
                 let instr = self.add(Instruction::Jump(0));
                 for pending_block in self.pending_block.iter_mut().rev() {
                     if let &mut PendingBlock::Loop {
